@@ -62,6 +62,9 @@ def md_pool(backend: str) -> Dict[str, List[Dict[str, Any]]]:
                              {"metadata_type": "add_method_type_info", "type_string": "reco::Muon", "method_name": "isPFMuon", "return_type": "int"},
                              {"metadata_type": "add_method_type_info", "type_string": "pat::Muon", "method_name": "isPFMuon", "return_type": "int"},
                              {"metadata_type": "add_method_type_info", "type_string": "reco::Track", "method_name": "hitPattern", "return_type": "int"}]
+    # numeric types outside bool/int/float/double
+    p["method_uint"] = [{"metadata_type": "add_method_type_info", "type_string": cls, "method_name": "nHitsU", "return_type": "unsigned int"}]
+    p["method_long"] = [{"metadata_type": "add_method_type_info", "type_string": cls, "method_name": "bigN", "return_type": "long"}]
     p["enum"] = [{"metadata_type": "define_enum", "namespace": "xAOD.Jet", "name": "Color", "values": ["Red", "Blue"]}]
     p["enum2"] = [{"metadata_type": "define_enum", "namespace": "Trig", "name": "Bits", "values": ["A", "B"]}]
     decl = {"atlas": {"metadata_type": "add_atlas_event_collection_info", "name": "MyJets", "include_files": ["xAODJet/JetContainer.h"], "container_type": "xAOD::JetContainer",
@@ -92,6 +95,11 @@ def history_queries(backend: str) -> List[str]:
             f"Select({{ds}}, lambda e: e.{coll}('A').Count())",
             f"Select({{ds}}, lambda e: e.{coll}('A').Where(lambda j: j.pt() > 1.0).Select(lambda j: j.eta()).First())",
             f"Select({{ds}}, lambda e: e.MyJets('Z').Count())",
+            # arithmetic on other declared numeric types; abs() of an integer and of a float
+            f"Select({{ds}}, lambda e: e.{coll}('A').Select(lambda j: j.nHitsU() * 2))",
+            f"Select({{ds}}, lambda e: e.{coll}('A').Select(lambda j: j.bigN() + j.nHitsU()))",
+            f"Select({{ds}}, lambda e: abs(e.{coll}('A').Count() - 2))",
+            f"Select({{ds}}, lambda e: e.{coll}('A').Select(lambda j: abs(j.pt())))",
             # constants that compare equal to the ones the constant probes use (0.0 vs -0.0, 1 vs 1.0 vs True ...)
             f"Select(SelectMany({{ds}}, lambda e: e.{coll}('A')), lambda j: (j.pt() * 0.0, j.pt() + 1, 2.0, False))",
             f"Select(SelectMany({{ds}}, lambda e: e.{coll}('A')), lambda j: (j.pt() * NEGZERO, j.pt() + 1.0, 2, True, 0))",
@@ -122,6 +130,10 @@ def probes(backend: str) -> List[Tuple[str, str]]:
          # the same enum name declared with OTHER content than an earlier query used
          ("declared_enum_other_content", f"Select(MetaData(ds, {{'metadata_type': 'define_enum', 'namespace': 'xAOD.Jet', 'name': 'Color', 'values': ['Red', 'Blue', 'Green']}}), lambda e: e.{coll}('A').Where(lambda j: j.color() == xAOD.Jet.Color.Green).Count())"),
          ("declared_other_enum_same_namespace", f"Select(MetaData(ds, {{'metadata_type': 'define_enum', 'namespace': 'xAOD.Jet', 'name': 'Quality', 'values': ['Loose', 'Tight']}}), lambda e: e.{coll}('A').Where(lambda j: j.color() == xAOD.Jet.Color.Red).Count())"),
+         ("two_declared_numeric_types", f"Select(MetaData(MetaData(ds, {{'metadata_type': 'add_method_type_info', 'type_string': '{cls}', 'method_name': 'bigN', 'return_type': 'long'}}), {{'metadata_type': 'add_method_type_info', 'type_string': '{cls}', 'method_name': 'nHitsU', 'return_type': 'unsigned int'}}), lambda e: e.{coll}('A').Select(lambda j: j.bigN() * j.nHitsU()))"),
+         ("two_declared_numeric_types_rev", f"Select(MetaData(MetaData(ds, {{'metadata_type': 'add_method_type_info', 'type_string': '{cls}', 'method_name': 'bigN', 'return_type': 'long'}}), {{'metadata_type': 'add_method_type_info', 'type_string': '{cls}', 'method_name': 'nHitsU', 'return_type': 'unsigned int'}}), lambda e: e.{coll}('A').Select(lambda j: j.nHitsU() - j.bigN()))"),
+         ("abs_of_float", f"Select(ds, lambda e: e.{coll}('A').Select(lambda j: abs(j.pt()) + abs(j.eta())))"),
+         ("abs_of_int", f"Select(ds, lambda e: abs(e.{coll}('A').Count() - 3) / 2)"),
          ("docker_md_unknown", f"Select(MetaData(ds, {{'metadata_type': 'docker', 'image': 'x:y'}}), lambda e: e.{coll}('A').Count())"),
          ("job_script_self", "Select(MetaData(ds, {'metadata_type': 'add_job_script', 'name': 'js2', 'script': [\"print('js2')\"], 'depends_on': ['js1']}), lambda e: e.%s('A').Count())" % coll)]
     return P
